@@ -27,6 +27,10 @@ func Preamble(m Mode) string {
 		fmt.Fprintf(&b, "(declare-fun %s (Int Int) Int)\n", f)
 	}
 	b.WriteString("(declare-fun pow2_int (Int) Int)\n")
+	b.WriteString("(declare-fun errclass (Iface Int) Bool)\n")
+	b.WriteString("(assert (forall ((e Iface) (c Int)) (! (=> (and (= (if.dyn e) c) (> c 0)) (errclass e c)) :pattern ((errclass e c)))))\n")
+	b.WriteString("(assert (forall ((e Iface) (c Int)) (! (=> (= (if.dyn e) 0) (not (errclass e c))) :pattern ((errclass e c)))))\n")
+	fmt.Fprintf(&b, "(declare-fun objsize (Int) %s)\n", ix)
 	b.WriteString(TheoryPrelude(m))
 	return b.String()
 }
@@ -154,8 +158,12 @@ func decide(o *Obl, file string, timeout time.Duration, stats *SolveStats) {
 	}
 	// first attempt: z3-new with a short budget
 	first := timeout
-	if first > 3*time.Second && !o.Canary {
+	if first > 3*time.Second {
 		first = 3 * time.Second
+	}
+	if o.Canary {
+		// a vacuity canary only has to fail to be proved: a short budget is enough
+		first = 1500 * time.Millisecond
 	}
 	so := runSolver(ctx, Solvers[0], file, first)
 	record(so)
